@@ -131,7 +131,17 @@ def srvObs (ws : List String) : String :=
     let sec := if second.isEmpty then "-" else
       if (List.range second.length).all fun i => run.log.contains (.ack (stopAck + 1 + i)) || run.log.contains (.ackDropped (stopAck + 1 + i))
       then "resolved" else "never"
-    s!"stop={stop} server={server} second={sec} early={bit early} late={bit late} after=none"
+    -- `late=g|f`: one more stop() after `run` has returned (`ServerCmd.lateCall`)
+    let lateStop : Option String := match kv ws "late" with
+      | none => some ""
+      | some l => if l == "g" || l == "f" then
+          let y := ServerCmd.calls {} calls
+          let evs := ServerCmd.lateCall y (.stop (l == "g"))
+          some (if !run.returned then " late-stop=unknown" else if evs.contains (.ackDropped y.nextAck) then " late-stop=resolved" else " late-stop=never")
+        else none
+    match lateStop with
+    | none => "bad-op"
+    | some ls => s!"stop={stop} server={server} second={sec} early={bit early} late={bit late} after=none{ls}"
   | _, _, _, _ => "bad-op"
 
 /-- `gate` scenarios (a service whose readiness is switched while the worker is idle), predicted with the
@@ -143,6 +153,20 @@ def gateObs (ws : List String) : String :=
   match kind with
   | none => "bad-op"
   | some fail =>
+    -- `stop=f|g` (kind=pending): the server is stopped while the second connection is queued at the worker and the service
+    -- still Pending: the worker releases it (forced: it ends at once; graceful: the drain of the Shutdown arm), no call
+    let stopMode : Option (Option Bool) := match kv ws "stop" with
+      | none => some none | some "f" => if fail then none else some (some false) | some "g" => if fail then none else some (some true) | _ => none
+    match stopMode with
+    | none => "bad-op"
+    | some (some g) =>
+      let script : List Rd := [.ready, .ready, .ready] ++ List.replicate 12 .pending
+      let s0 := ActixNet.Worker.init { n := 1, timeout := 30000, svcs := fun _ => { script := script } }
+      let s1 := ActixNet.Worker.run s0 [.conn 0, .poll 1000, .finish 0, .conn 0, .poll 1000, .poll 1000, .stop g, .poll 1000, .advance 1000, .poll 1000]
+      let calls := s1.log.filterMap fun e => match e with | .call _ inc _ => some s!"{inc + 1}R" | _ => none
+      let run := ServerCmd.serve ServerCmd.srcWakeFirst 1 [.stop g]
+      s!"calls={",".intercalate calls} answers=1- stop={if run.returned then "resolved" else "never"} released={bit (s1.finished && s1.queue.isEmpty)} called-after={calls.length - 1}"
+    | some none =>
     let script : List Rd := [.ready, .ready, .ready, if fail then .err else .pending]
     let s0 := ActixNet.Worker.init { n := 1, timeout := 0, svcs := fun _ => { script := script } }
     let s1 := ActixNet.Worker.run s0 [.conn 0, .poll 1000, .conn 0, .poll 1000, .poll 1000]
@@ -171,11 +195,34 @@ def faultObs (ws : List String) : String :=
   -- and the live worker go on (C08: the accept thread never dies, the discovering connection is re-routed)
   let pair : Option Bool := match kv ws "pair" with | none => some false | some "1" => some true | _ => none
   let dropsrv : Option Bool := match kv ws "dropsrv" with | none => some false | some "1" => some true | _ => none
+  -- `kill=`: how the first worker dies (a panic in `call` / in `poll_ready` / a failed re-creation): found and replaced all the same;
+  -- `busystop=1`: a dead worker nobody has noticed, a connection in progress on the live one, graceful stop: every worker is
+  -- awaited (`graceful_waits_server`; the dead one's receiver resolves at once, `join_all` waits for the other);
+  -- `hold=1`: the only worker dies saturated, its connections die with it, the release gets it found and replaced
+  let kill : Option Nat := match kv ws "kill" with | none => some 0 | some "call" => some 0 | some "ready" => some 1 | some "restart" => some 2 | _ => none
+  let busy : Option Bool := match kv ws "busystop" with | none => some false | some "1" => some true | _ => none
+  let hold : Option Bool := match kv ws "hold" with | none => some false | some "1" => some true | _ => none
+  -- `sat=1`: a saturated live worker, a dead worker marked available: the next connection is handed to the live one (C01)
+  let sat : Option Bool := match kv ws "sat" with | none => some false | some "1" => some true | _ => none
+  match kill, busy, hold, sat with
+  | none, _, _, _ | _, none, _, _ | _, _, none, _ | _, _, _, none => "bad-op"
+  | some kl, some bs, some hd, some sa =>
   match gapOk, withStop, faults, limit, workers, pair, dropsrv with
   | true, some st, some fl, some lim, some wk, some pr, some ds =>
     let exact := lim.isNone && wk == 2
-    if (st && (!exact || pr)) || (ds && (!exact || st || pr || fl != 1)) then "bad-op" else
+    if sa && (wk != 2 || lim != some 1 || kl != 0 || fl != 1 || st || pr || ds || bs || hd) then "bad-op" else
+    if sa then "held=1 killed=- next-served=1" else
+    if (st && (!exact || pr)) || (ds && (!exact || st || pr || fl != 1 || kl != 0))
+       || (bs && (!exact || st || pr || ds || fl != 1 || kl != 0))
+       || (hd && (wk != 1 || lim != some 1 || kl != 1 || fl != 1 || st || pr || ds || bs)) then "bad-op" else
     if ds then "before=12 dropped=1 killed=- later-all-served=1" else
+    if hd then
+      let run := ServerCmd.serve ServerCmd.srcWakeFirst 1 [.faulted 0]
+      s!"held=1 died=1 next-served=1 replaced={bit (run.log.contains (.restartWorker 0))}" else
+    if bs then
+      let run := ServerCmd.serve ServerCmd.srcWakeFirst 2 [.stop true]
+      let waited := (List.range 2).all fun w => run.log.contains (.awaitWorker w)
+      s!"before=12 killed=- held=2 stop={if run.returned then "resolved" else "never"} early={bit (!waited)}" else
     -- every fault is reported once and the replacement comes up (C08 `restart_creates_replacement`, `replacement_rejoins`):
     -- the command loop handles one `WorkerFaulted` per fault and keeps a handle for every index
     let run := ServerCmd.serve ServerCmd.srcWakeFirst wk ((List.replicate fl (ServerCmd.Call.faulted 0)) ++ (if st then [.stop true] else []))
@@ -247,7 +294,7 @@ def step (st : State) (line : String) : State × String :=
   | "sig" :: _ => (st, sigObs ws)
   | ["k-shape"] =>
     -- structural facts read from the source by T1; the harness prints what C06 demands
-    (st, s!"none-arm-polls-stop={bit Src.wkNoneArmPollsStop} run-breaks-on-stopping={bit Src.srRunBreaksOnStopping} stop-sends-eagerly={bit Src.hsStopSendsEagerly} await-guard={Src.hcAwaitGuard} mux-hands-on-cmd-rx={bit Src.smMuxHandsOnCmdRx} default-timeout={Src.wcDefaultShutdownSecs} default-conns={Src.wcDefaultMaxConn} builder-starts-from-default={bit Src.sbStartsFromDefaultConfig}")
+    (st, s!"none-arm-polls-stop={bit Src.wkNoneArmPollsStop} run-breaks-on-stopping={bit Src.srRunBreaksOnStopping} stop-sends-eagerly={bit Src.hsStopSendsEagerly} await-guard={Src.hcAwaitGuard} mux-hands-on-cmd-rx={bit Src.smMuxHandsOnCmdRx} default-timeout={Src.wcDefaultShutdownSecs} default-conns={Src.wcDefaultMaxConn} builder-starts-from-default={bit Src.sbStartsFromDefaultConfig} stop-drops-undelivered={bit Src.hsStopDropsUndelivered} join-waits-for-all={bit Src.jaWaitsForAll}")
   | ["k-worker"] =>
     (st, s!"tick-first={Src.wkTickFirstMs} tick-next={Src.wkTickNextMs} init={Src.wcInit}")
   | ["k-timedout", e, t] => match e.toNat?, t.toNat? with
